@@ -995,7 +995,7 @@ def _classify_link_mismatch(src, off):
     if re.match(rb'[,;]\s*(--\[\[.*?\]\]\s*|--[^\n]*\n\s*|//[^\n]*\n\s*)*\}', rest, re.S):
         # _walk_TableConstructor decrements _indent before the trailing field separator
         return 'trailing-field-separator'
-    return 'UNEXPLAINED at %r' % rest.split()[0][:8].decode('latin-1')
+    return 'UNEXPLAINED at %r' % (rest.split() or [b'<end of text>'])[0][:8].decode('latin-1')
 
 
 def _reader_crosscheck(src, answer):
